@@ -174,7 +174,7 @@ class FD(FrameDomain):
         base = q.split(".")[-1]
         if base in ("empty", "zeros", "zeros_like", "empty_like"):
             return Zero()            # uninitialised / zero arrays are frame-polymorphic
-        if base in ("sum", "mean", "delete", "cumsum", "take", "nan_to_num", "atleast_2d", "atleast_1d", "broadcast_to", "moveaxis") and args:
+        if base in ("sum", "mean", "delete", "cumsum", "take", "nan_to_num", "atleast_2d", "atleast_1d", "broadcast_to", "moveaxis", "reduceat") and args:
             return args[0] if isinstance(args[0], (Pt, Vec, Quat, Zero)) else super().call_external(q, args, kwargs, node)
         if base == "einsum" and len(args) == 3 and isinstance(args[0], Const) and isinstance(args[0].value, str):
             spec = args[0].value.replace(" ", "")
